@@ -327,7 +327,11 @@ class ElementList(MutableSequence):
             else:
                 child = value
         elif isinstance(value, BaseDataType):
-            child = self.create_element(name, False, reference)
+            # the new child is built detached (as for the other kinds of value) and attached below
+            if reference is None:
+                raise ChildNotFound(name)
+            child = reference['cls'](child_name, reference=child_ref, version=self.element.version,
+                                     validation_level=self.element.validation_level)
             child.value = value
         else:
             raise ChildNotValid(value, child_name)
